@@ -108,11 +108,49 @@ type logDesc struct {
 
 var gateMaxData = 640
 
-func gateCase(out *lib.Out, g *abi.Gen, d *abi.Decl, kind string) error {
+// prebuilt: an integration (and a second one for the Insert sample) built
+// BEFORE other hashing happens, with a copy of its signature hash taken at
+// construction time.
+type prebuilt struct {
+	ig, ig2 dig.Integration
+	snap    []byte
+}
+
+func build(d *abi.Decl) (*prebuilt, error) {
 	ig, err := dig.New("ig", d.Event, nil, wpg.Table{Name: "t"}, dig.Notification{}, "")
 	if err != nil {
-		return err
+		return nil, err
 	}
+	snap := append([]byte(nil), dig.VerifSigHash(ig)...)
+	ig2, err := dig.New("ig", d.Event, nil, wpg.Table{Name: "t"}, dig.Notification{}, "")
+	if err != nil {
+		return nil, err
+	}
+	return &prebuilt{ig: ig, ig2: ig2, snap: snap}, nil
+}
+
+// unrelatedHashing: what a running indexer does between building an
+// integration and seeing its logs: other calls of eth.Keccak.
+func unrelatedHashing(r *lib.RNG) {
+	for i := 0; i < 3; i++ {
+		eth.Keccak(r.Bytes(r.Range(1, 80)))
+	}
+	for i := 0; i < 2; i++ {
+		tx := &eth.Tx{}
+		tx.Hash() // no precomputed hash: hashes the (empty) raw buffer
+	}
+	eth.Keccak32(r.Bytes(40))
+}
+
+func gateCase(out *lib.Out, g *abi.Gen, d *abi.Decl, kind string, pre *prebuilt) error {
+	if pre == nil {
+		var err error
+		if pre, err = build(d); err != nil {
+			return err
+		}
+		unrelatedHashing(g.R)
+	}
+	ig := pre.ig
 	sigHash := abi.Keccak256([]byte(abi.CanonSig(d.Name, d.Ins))) // independent of the implementation
 	nidx := 0
 	for _, t := range d.Ins {
@@ -231,7 +269,7 @@ func gateCase(out *lib.Out, g *abi.Gen, d *abi.Decl, kind string) error {
 	}
 	// the same logs (those that did not fail) through Integration.Insert
 	if ok && d.NCols > 0 {
-		ig2, _ := dig.New("ig", d.Event, nil, wpg.Table{Name: "t"}, dig.Notification{}, "")
+		ig2 := pre.ig2
 		conn := &abi.RecConn{}
 		blocks := make([]eth.Block, 1)
 		blocks[0].Txs = make(eth.Txs, 1)
@@ -248,8 +286,26 @@ func gateCase(out *lib.Out, g *abi.Gen, d *abi.Decl, kind string) error {
 			ok, msg = false, fmt.Sprintf("Integration.Insert copied %d rows, processLog gave %d", nr, insertWant)
 		}
 	}
+	// the stored hash, the event's hash and the pushed-down topic are byte-stable
+	// across later hashing and still the Keccak-256 of the canonical signature
+	unrelatedHashing(r)
+	if ok {
+		switch {
+		case !bytes.Equal(pre.snap, sigHash):
+			ok, msg = false, fmt.Sprintf("signature hash at construction %x is not the Keccak-256 of %s (%x)", pre.snap, abi.CanonSig(d.Name, d.Ins), sigHash)
+		case !bytes.Equal(dig.VerifSigHash(ig), sigHash) || !bytes.Equal(dig.VerifSigHash(pre.ig2), sigHash):
+			ok, msg = false, fmt.Sprintf("the integration's stored signature hash changed after later hashing: now %x, Keccak-256 of %s is %x", dig.VerifSigHash(ig), abi.CanonSig(d.Name, d.Ins), sigHash)
+		case !bytes.Equal(d.Event.SignatureHash(), sigHash):
+			ok, msg = false, "Event.SignatureHash() is not stable"
+		default:
+			f := ig.Filter()
+			if ts := f.Topics(); len(ts) != 1 || len(ts[0]) != 1 || ts[0][0] != eth.EncodeHex(sigHash) {
+				ok, msg = false, fmt.Sprintf("Filter().Topics() = %v, expected [[%s]]", ts, eth.EncodeHex(sigHash))
+			}
+		}
+	}
 	out.Add(lib.Case{
-		Coq:  fmt.Sprintf("CGate %s %s %s", abi.CoqEvent(d.Event), abi.CB(dig.VerifSigHash(ig)), lib.CList(terms)),
+		Coq:  fmt.Sprintf("CGate %s %s %s", abi.CoqEvent(d.Event), abi.CB(pre.snap), lib.CList(terms)),
 		Desc: sigDesc{Op: "gate", JSON: d.JSON, Logs: descs}, Kind: kind, Nontrivial: true,
 		OracleOK: ok, OracleMsg: msg, Size: len(d.JSON)})
 	return nil
@@ -266,9 +322,9 @@ func runC13(cfg lib.Cfg) error {
 		return replayC13(cfg, out)
 	}
 	r := lib.NewRNG(cfg.Seed)
-	nSig, nGate := 300, 48
+	nSig, nGate, nMulti := 300, 30, 5
 	if cfg.Thorough() {
-		nSig, nGate, gateMaxData = 8000, 500, 1500
+		nSig, nGate, nMulti, gateMaxData = 8000, 400, 40, 1500
 	}
 	for _, k := range knownEvents() {
 		d, err := abi.NewDecl(k.name, k.ins)
@@ -313,10 +369,56 @@ func runC13(cfg lib.Cfg) error {
 		if d.Panic != "" {
 			continue
 		}
-		if err := gateCase(out, g, d, "gate"); err != nil {
+		if err := gateCase(out, g, d, "gate", nil); err != nil {
 			return err
 		}
 	}
+	// several integrations built first, then unrelated hashing, then the logs of
+	// each integration, in construction order and in reverse order
+	for grp := 0; grp < nMulti; grp++ {
+		gr := r.Fork()
+		k := gr.Range(2, 4)
+		var decls []*abi.Decl
+		var gens []*abi.Gen
+		for len(decls) < k {
+			g := &abi.Gen{R: gr.Fork(), MaxDepth: 2}
+			ins := g.Inputs(true)
+			for _, t := range ins {
+				if !t.Indexed && !hasSel(t) && g.R.Chance(1, 2) {
+					t.Indexed = true
+				}
+			}
+			d, err := abi.NewDecl(fmt.Sprintf("M%d_%d", grp, len(decls)), ins)
+			if err != nil {
+				return err
+			}
+			if d.Panic != "" {
+				continue
+			}
+			decls = append(decls, d)
+			gens = append(gens, g)
+		}
+		for pass := 0; pass < 2; pass++ {
+			pres := make([]*prebuilt, k)
+			for i, d := range decls {
+				var err error
+				if pres[i], err = build(d); err != nil {
+					return err
+				}
+			}
+			unrelatedHashing(gr)
+			for j := 0; j < k; j++ {
+				i := j
+				if pass == 1 {
+					i = k - 1 - j
+				}
+				if err := gateCase(out, gens[i], decls[i], "gate-after-other-integrations", pres[i]); err != nil {
+					return err
+				}
+			}
+		}
+	}
+	out.Notes["gate_sequences"] = "every integration is built, then unrelated eth.Keccak / Tx.Hash calls are made, then its logs are processed; in addition groups of 2-4 integrations are all built first and processed in construction order and in reverse order; the stored hash, Event.SignatureHash() and Filter().Topics() are compared with the independent Keccak-256 again at the end of every case"
 	out.Notes["keccak"] = "eth.Keccak / Event.SignatureHash compared with an independent Keccak-256 written in the harness on every signature, and with the known topics of Transfer, Approval and Seaport OrderFulfilled"
 	return out.Flush()
 }
@@ -408,6 +510,11 @@ func replayC13(cfg lib.Cfg, out *lib.Out) error {
 	}
 	fmt.Printf("replay: signature %q (canonical %q) hash %x (keccak %x) indexed %d/%d\n", sig, want, sh, wantHash, dig.VerifNumIndexed(d.Event), nidx)
 	ig, _ := dig.New("ig", d.Event, nil, wpg.Table{Name: "t"}, dig.Notification{}, "")
+	unrelatedHashing(lib.NewRNG(cfg.Seed))
+	if !bytes.Equal(dig.VerifSigHash(ig), wantHash) {
+		fmt.Printf("  stored signature hash after later hashing: %x, expected %x\n", dig.VerifSigHash(ig), wantHash)
+		ok = false
+	}
 	for _, l := range ds.Logs {
 		el := &eth.Log{Address: make([]byte, 20), Data: abi.UnHex(l.Data)}
 		for _, t := range l.Topics {
